@@ -20,6 +20,7 @@ THEOREMS = [
     (NS + "C11_update_every_iteration", "full"),
     (NS + "C11_loop_never_stalls", "full"),
     (NS + "C11_no_amplification", "full"),
+    (NS + "C11_no_amplification_until_promoted", "full"),
     (NS + "C11_unverified_budget", "full"),
     (NS + "C11_halfopen_sends_only_replies", "full"),
     (NS + "C11_halfopen_receive", "full"),
